@@ -216,10 +216,29 @@ pub fn oracle(toks: &[&str]) -> String {
     roots.extend(aig.invariant_constraints.iter().copied());
     roots.extend(aig.fairness_constraints.iter().copied());
     for g in &aig.justice_properties { roots.extend(g.iter().copied()); }
+    // the definitions are checked in the order constant, inputs, gate outputs (lit_defs), latch states
+    // (initialize): the first literal whose variable was defined before it must be reported
+    let mut expected_clash: Option<usize> = None;
+    {
+        let mut seen = std::collections::HashSet::new();
+        seen.insert(0usize);
+        let order = aig.inputs.iter().copied()
+            .chain(aig.and_gates.iter().map(|g| g.output))
+            .chain(aig.latches.iter().map(|l| l.state));
+        for l in order {
+            if !seen.insert(l >> 1) { expected_clash = Some(l); break; }
+        }
+    }
+    if let Some(exp) = expected_clash {
+        return match &res {
+            Err(AigStructureError::LitAlreadyDefined { lit }) if *lit == exp => "PASS err-redefined".into(),
+            Err(e) => format!("FAIL variable {} is defined twice (first clash: literal {exp}) but the result is {}", exp >> 1, show_err(e)),
+            Ok(_) => format!("FAIL variable {} is defined twice (first clash: literal {exp}) but a circuit was returned", exp >> 1),
+        };
+    }
     let (ord, rn) = match res {
         Err(AigStructureError::LitAlreadyDefined { lit }) => {
-            return if an.defs.get(&(lit >> 1)).map_or(0, |d| d.len()) >= 2 { "PASS err-redefined".into() }
-                   else { format!("FAIL redefined {lit} reported but its variable has fewer than two definitions") };
+            return format!("FAIL redefined {lit} reported but no variable is defined twice");
         }
         Err(AigStructureError::LitNotDefined { lit }) => {
             return if !an.defs.contains_key(&(lit >> 1)) { "PASS err-undefined".into() }
@@ -231,15 +250,9 @@ pub fn oracle(toks: &[&str]) -> String {
         }
         Ok(x) => x,
     };
-    // ---- a circuit was returned: the graph must have been well formed
-    let mut clash: Vec<(usize, bool)> = an.defs.iter().filter(|(_, d)| d.len() >= 2)
-        .map(|(v, d)| (*v, d.iter().filter(|(x, _)| !matches!(x, Def::Latch(_))).count() >= 2)).collect();
-    clash.sort();
-    if let Some((v, _)) = clash.iter().find(|(_, nonlatch)| *nonlatch) {
-        return format!("FAIL variable {v} is defined twice (inputs/gates/constant) but a circuit was returned");
-    }
-    if let Some((v, _)) = clash.first() {
-        return format!("FAIL D10 latch state variable {v} is also defined elsewhere but a circuit was returned (no LitAlreadyDefined)");
+    // ---- a circuit was returned: no variable is defined twice (checked above)
+    if let Some((v, _)) = an.defs.iter().find(|(_, d)| d.len() >= 2) {
+        return format!("FAIL variable {v} is defined twice but a circuit was returned");
     }
     let (order, undefined, cyclic) = an.reach(&aig, &roots);
     if let Some(v) = undefined { return format!("FAIL used variable {v} is undefined but a circuit was returned"); }
